@@ -362,4 +362,74 @@ theorem sqrt3_half_bounds : (5 : ℝ) / 6 ≤ √3 / 2 ∧ √3 / 2 ≤ 1 ∧ 0 
     by_contra h; have h := not_le.1 h; nlinarith
   exact ⟨by linarith, by linarith, by linarith⟩
 
+/-! ### the numbering loop of `hex_segments` (translated: `Gen.keptCells`) -/
+
+/-- the (number, cell) pairs of a numbered cell list that survive the drop list -/
+def keptOf (drop : List Nat) (cells : List HexCell) (start : Nat) : List (Nat × HexCell) :=
+  ((cells.zipIdx start).filter (fun p => !drop.contains p.2)).map (fun p => (p.2, p.1))
+
+theorem keptOf_append (drop : List Nat) (l1 l2 : List HexCell) (a : Nat) :
+    keptOf drop (l1 ++ l2) a = keptOf drop l1 a ++ keptOf drop l2 (a + l1.length) := by
+  unfold keptOf
+  rw [List.zipIdx_append, List.filter_append, List.map_append]
+
+theorem seg_inner (drop : List Nat) (L : List HexCell) : ∀ (acc : List (Nat × HexCell)) (a : Nat),
+    L.foldl (fun (st : List (Nat × HexCell) × Nat) h =>
+        ((if drop.contains st.2 then st.1 else st.1 ++ [(st.2, h)]), st.2 + 1)) (acc, a)
+      = (acc ++ keptOf drop L a, a + L.length) := by
+  induction L with
+  | nil => intro acc a; simp [keptOf]
+  | cons h t ih =>
+    intro acc a
+    rw [List.foldl_cons, ih]
+    unfold keptOf
+    rw [List.zipIdx_cons, List.filter_cons]
+    by_cases hd : a ∈ drop
+    · simp [hd, Nat.add_assoc, Nat.add_comm 1]
+    · simp [hd, Nat.add_assoc, Nat.add_comm 1]
+
+theorem keptCells_eq (rings : Nat) (drop : List Nat) :
+    keptCells rings drop = keptOf drop (segCells rings) 0 := by
+  have outer : ∀ k : Nat, (List.range' 1 k).foldl (fun (st : List (Nat × HexCell) × Nat) ring =>
+      (Gen.hexRing ring).foldl (fun (st : List (Nat × HexCell) × Nat) h =>
+        ((if drop.contains st.2 then st.1 else st.1 ++ [(st.2, h)]), st.2 + 1)) st)
+      ((if drop.contains 0 then [] else [(0, ((0, 0, 0) : HexCell))]), 1)
+      = (keptOf drop (segCells k) 0, (segCells k).length) := by
+    intro k
+    induction k with
+    | zero =>
+      by_cases hd : 0 ∈ drop <;> simp [keptOf, segCells, hd]
+    | succ k ih =>
+      rw [List.range'_1_concat, List.foldl_append, ih]
+      simp only [List.foldl_cons, List.foldl_nil]
+      rw [seg_inner]
+      have e : segCells (k + 1) = segCells k ++ hexRing (k + 1) := rfl
+      rw [e, keptOf_append, List.length_append, Nat.zero_add, Nat.add_comm 1 k]
+      rfl
+  unfold keptCells Gen.keptCells
+  have := outer rings
+  simp only [Nat.add_sub_cancel]
+  exact congrArg Prod.fst this
+
+/-- the numbers of the drawn segments are `keptSegments`, and every drawn cell is the cell with that number in `segCells` -/
+theorem keptCells_spec (rings : Nat) (drop : List Nat) :
+    (keptCells rings drop).map Prod.fst = keptSegments rings drop ∧
+    ∀ p ∈ keptCells rings drop, (segCells rings)[p.1]? = some p.2 := by
+  have e : keptCells rings drop = keptOf drop (segCells rings) 0 := keptCells_eq rings drop
+  rw [e]
+  constructor
+  · unfold keptOf keptSegments
+    rw [List.map_map]
+    have h1 : (Prod.fst ∘ fun p : HexCell × Nat => (p.2, p.1)) = Prod.snd := rfl
+    rw [h1]
+    have h2 : (fun p : HexCell × Nat => !drop.contains p.2) = (fun s : Nat => !drop.contains s) ∘ Prod.snd := rfl
+    rw [h2, ← List.filter_map, List.zipIdx_map_snd, List.range_eq_range']
+  · intro p hp
+    unfold keptOf at hp
+    simp only [List.mem_map, List.mem_filter] at hp
+    obtain ⟨q, ⟨hq, _⟩, rfl⟩ := hp
+    obtain ⟨_, hlt, he⟩ := List.mem_zipIdx hq
+    simp only [Nat.sub_zero, Nat.zero_add] at hlt he
+    rw [List.getElem?_eq_getElem hlt, he]
+
 end Lentil
